@@ -2,6 +2,7 @@
 import importlib
 
 MODULES = [
+    "contracts.py_types",
     "contracts.lem_call",
     "contracts.lem_time",
     "contracts.lem_guard",
